@@ -104,7 +104,9 @@ Definition may_insert (table : string) (selects omits : list sitem) (f : field) 
   && (selected table selects f || tracked f).
 Definition must_insert (table : string) (is_map : bool) (selects omits : list sitem) (p : payload) (f : field) : bool :=
   has_col f && creatable f && negb (listed table omits f) && selected table selects f && negb (f_pk f)
-  && (negb is_map || key_given p f).
+  && (negb is_map || key_given p f)
+  (* a column with a database-side default is left to the database when the struct has no value *)
+  && (is_map || negb (f_dbdef f) || negb (p_zero p f)).
 Definition insert_src_ok (f : field) (k : src) : bool :=
   match k with KNow => tracked f | KPay => true | KOther => false end.
 
@@ -119,8 +121,19 @@ Fixpoint key_ok (mk ks : list Z) : bool :=
   | m :: mk', k :: ks' => ((m =? 0) || (k =? m)) && key_ok mk' ks'
   | _, _ => true
   end.
-Definition in_rows (model_key : list Z) (where_ids : option (list Z)) (r : srow) : bool :=
-  key_ok model_key (snd r)
+(* a slice model value: the rows whose key is one of the elements' (non-zero) keys; key-less elements
+   contribute nothing (a slice without any key does not restrict) *)
+Definition mkey_ok (mk : mkey) (ks : list Z) : bool :=
+  match mk with
+  | MStruct m => key_ok m ks
+  | MSlice l => let keys := filter (fun k => negb (k =? 0)) l in
+                match keys with
+                | [] => true
+                | _ => match ks with k :: _ => mem_z k keys | [] => false end
+                end
+  end.
+Definition in_rows (model_key : mkey) (where_ids : option (list Z)) (r : srow) : bool :=
+  mkey_ok model_key (snd r)
   && match where_ids with None => true | Some l => mem_z (fst r) l end.
 Definition is_new (row : Z) : bool := 1000 <? row.
 
@@ -168,7 +181,7 @@ Definition spec_conflict (s : schema) (table : string) (o : op) (selects omits :
   && match o with
      | OUpsertCols cols => forallb (fun c => has_cell cells (fst p) c) cols
      | OUpsertNothing => true
-     | _ => forallb (fun f => negb (must_insert table false selects omits p f && updatable f
+     | _ => forallb (fun f => negb (must_insert table false selects omits p f && updatable f && negb (f_dbdef f)
                                     && negb (match f_auto f with ACreate => true | _ => false end))
                               || has_cell cells (fst p) (f_db f)) s
      end.
@@ -176,7 +189,7 @@ Definition spec_conflict (s : schema) (table : string) (o : op) (selects omits :
 Definition all_new (cells : list cell) : bool := forallb (fun x => is_new (c_row x)) cells.
 
 Definition spec_case (s : schema) (table : string) (o : op) (selects omits : list sitem)
-  (ps : list payload) (stored : list srow) (model_key : list Z) (where_ids : option (list Z))
+  (ps : list payload) (stored : list srow) (model_key : mkey) (where_ids : option (list Z))
   (cells : list cell) (err : bool) : bool :=
   let p := match ps with p :: _ => p | [] => (0, []) end in
   if err then match cells with [] => true | _ => false end      (* a failed statement writes nothing *)
